@@ -2,6 +2,7 @@ package nano
 
 import (
 	"math"
+	"time"
 
 	symx "github.com/pinealctx/neptune/zzsymx"
 )
@@ -39,6 +40,28 @@ func VerifH_GenConcurrent() {
 	symx.Assume(ta1 < math.MaxInt64-8 && ta2 < math.MaxInt64-8 && tb1 < math.MaxInt64-8 && tb2 < math.MaxInt64-8)
 	symx.Go("A", func() { a1 = n.GenIDByTS(ta1); a2 = n.GenIDByTS(ta2) })
 	symx.Go("B", func() { b1 = n.GenIDByTS(tb1); b2 = n.GenIDByTS(tb2) })
+	symx.WaitQuiescent()
+	symx.Assert(a2 > a1 && b2 > b1, "per-goroutine increasing")
+	symx.Assert(a1 != b1 && a1 != b2 && a2 != b1 && a2 != b2, "distinct across goroutines")
+	symx.Assert(a1 > cur && b1 > cur, "above the seed")
+	symx.Reach("end")
+}
+
+// C06/H5b: the clock-reading entry point under concurrency: two goroutines calling GenID (one of them
+// also GenIDByTS) on one generator; the seed and every clock reading come from a small menu of instants
+// (behind, at and ahead of the seed - the arithmetic itself is the step lemma's business): all ids
+// distinct, per-goroutine increasing, above the seed; every interleaving, race monitor.
+func VerifH_GenIDConcurrent() {
+	cur := int64(1000)
+	n := NewUnixNanoID(cur)
+	var a1, a2, b1, b2 int64
+	menu := []int64{500, 1000, 1001, 1500}
+	tb := menu[symx.Concrete(symx.Int("tb"), 0, len(menu)-1)]
+	symx.Stub("time.Now", func() time.Time {
+		return time.Unix(0, menu[symx.Concrete(symx.Int("clock"), 0, len(menu)-1)])
+	})
+	symx.Go("A", func() { a1 = n.GenID(); a2 = n.GenID() })
+	symx.Go("B", func() { b1 = n.GenID(); b2 = n.GenIDByTS(tb) })
 	symx.WaitQuiescent()
 	symx.Assert(a2 > a1 && b2 > b1, "per-goroutine increasing")
 	symx.Assert(a1 != b1 && a1 != b2 && a2 != b1 && a2 != b2, "distinct across goroutines")
